@@ -684,6 +684,73 @@ def explore(ctx, h, drv, label, nhist, nops, quota_cuts, quota_flips, grow=(6000
     ctx.log("synthetic logs done")
 
 
+def explore_async(ctx, h, label, nhist, nops, ncuts):
+    """savepoints taken by the log's worker thread while the caller goes on (put/del with IWKV_SYNC only poke it): wherever such a
+    savepoint lands, a log cut right behind it must recover to the state after some prefix of the caller's operations. The log is
+    parsed only to aim the cuts; the verdict is the real recovery compared with the reference states."""
+    r = C.Rng(ctx.seed, "c05/async/" + label)
+    wd = os.path.join(C.scratch(), "c05a-" + label)
+    os.makedirs(wd, exist_ok=True)
+    for hi in range(nhist):
+        tag = "a%d" % hi
+        crc = hi % 2
+        path = os.path.join(wd, tag + ".db")
+        pre, walp = os.path.join(wd, tag + ".pre"), os.path.join(wd, tag + ".wal")
+        ops = ["open %s %d %d" % (path, crc, r.choice([4096, 8192])), "db 1"]
+        dbs = [1]
+        if r.random() < 0.5:
+            ops.append("db 2"); dbs.append(2)
+        big = r.choice([60000, 120000])
+        ops += ["put 1 %s %d 9" % (b"grow".hex(), big), "del 1 %s" % b"grow".hex(), "ckpt"]
+        st = {d: {} for d in dbs}
+        states = {state_digest(st)}
+        keys = [b"k%03d" % i for i in range(r.choice([4, 12, 40]))]
+        body = []
+        for _ in range(nops):
+            d, k = r.choice(dbs), r.choice(keys)
+            fl = " s" if r.random() < 0.6 else ""
+            if r.random() < 0.25:
+                body.append("del %d %s%s" % (d, k.hex(), fl)); st[d].pop(k, None)
+            else:
+                ln, seed = r.choice([r.randrange(1, 40), r.randrange(1, 300), r.randrange(300, 2500)]), r.randrange(1, 250)
+                body.append("put %d %s %d %d%s" % (d, k.hex(), ln, seed, fl)); st[d][k] = (ln, seed)
+            states.add(state_digest(st))
+        ops += body + ["snap %s %s" % (pre, walp), "close"]
+        rc, out, err = C.run_lines([h], ops, timeout=300)
+        nb = len(ops) - len(body) - 2
+        if rc != 0 or len(out) != len(ops) or any(field(o, "rebased") not in (None, "0") for o in out[nb:]):
+            ctx.hist("async:history-dropped")
+            continue
+        wal = open(walp, "rb").read()
+        sp_ends = [p + n for (p, n, op) in parse_log(wal) if op == SAVEPOINT]
+        ctx.hist("async:savepoints", len(sp_ends))
+        if not sp_ends:
+            continue
+        cuts = sp_ends if len(sp_ends) <= ncuts else [sp_ends[i * len(sp_ends) // ncuts] for i in range(ncuts)]
+        lines = ["load %s %s" % (pre, walp)] + ["rec %s 1 %d %d -" % (os.path.join(wd, "aw.db"), crc, c) for c in cuts]
+        rc, ro, re_ = C.run_lines([h], lines, timeout=600)
+        if rc != 0 or len(ro) != len(lines):
+            kind, fn = san_site(re_)
+            ctx.fail(dict(kind="crash", phase="async-recover", site=fn, what=kind), dict(ops=ops, recov=lines, stderr=re_[-2000:]),
+                     "recovery of a log cut behind a worker-thread savepoint died: %s" % re_[-300:])
+            continue
+        for c, line in zip(cuts, ro[1:]):
+            ctx.case(("async", label, hi, c))
+            ctx.cov["traces_validated_against_impl"] += 1
+            tail = line.split(" | ", 1)[1] if " | " in line else ""
+            opn, dig = field(tail, "open"), field(tail, "dig")
+            prob = None
+            if opn != "0":
+                prob = ("open-failed", "log cut behind the savepoint ending at %d: iwkv_open failed with %s" % (c, opn))
+            elif dig is None or not dig.startswith("0:"):
+                prob = ("unreadable", "log cut behind the savepoint ending at %d: recovered store cannot be read: %s" % (c, dig))
+            elif dig[2:] not in states:
+                prob = ("not-a-prefix", "log cut behind the savepoint ending at %d: recovered contents %s are the state after no prefix of the operations" % (c, dig[2:]))
+            ctx.hist("async:" + (prob[0] if prob else "prefix-state"))
+            if prob:
+                ctx.fail(dict(kind="oracle", phase="async-savepoint", cls=prob[0]), dict(ops=ops, cut=c, impl=line), prob[1])
+
+
 def run(ctx):
     ctx.cov["rule"] = ("real -wal files written by random put/del/sync/new-db histories (python dict as reference, every savepoint dump checked), "
                        "plain and with an online backup during which a writer checkpoints (reset marks; live log and backup image); each log is "
@@ -693,15 +760,18 @@ def run(ctx):
                        "malformations run through _rollforward_exl alone (model/implementation only); distinct = distinct (log, damage); "
                        "every case recovers a non-empty log except cut 0")
     ctx.assumptions += ["crash model: the log loses a tail (any byte length) or has bytes changed; the main file is as of the last log truncation",
-                        "page size 4096; checkpoint thread idle (huge timeouts), savepoints only through iwkv_sync / db creation / explicit checkpoint"]
+                        "page size 4096; no timer savepoints/checkpoints (huge timeouts); savepoints through iwkv_sync / db creation / explicit checkpoint, and - async stream - "
+                        "by the worker thread poked through IWKV_SYNC operations"]
     ctx.translate()
     ok, drv_ok = ctx.prove(MODULE, THEOREMS)
     h = build(ctx)
     drv = C.drv_path() if drv_ok else None
     if ctx.tier == "quick":
         explore(ctx, h, drv, "main", 6, 60, 70, 60, grow=(20000, 40000), mfrac=0.5)
+        explore_async(ctx, h, "q", 5, 400, 150)
     else:
         explore(ctx, h, drv, "main", 20, 120, 250, 200, mfrac=0.03, nsynth=600)
+        explore_async(ctx, h, "t", 20, 1500, 400)
     if (ctx.proof_broken or ctx.corr_broken) and not ctx.violations:
         ctx.log("obligation or correspondence broken: widening the search for a failing input")
         for x in (ctx.proof_broken + ctx.corr_broken)[:3]:
